@@ -178,6 +178,97 @@ fn scoped_cases() -> Vec<(String, String, Vec<String>, Vec<String>, Vec<(String,
             vec![],
         ));
     }
+    // Scope trees: the same or different names listed at two nesting levels; uses before, inside and after the
+    // inner scope and after the outer one. A use is verbatim iff its name is listed by an enclosing scope there.
+    let names = ["skipme", "other"];
+    let subsets: [&[&str]; 4] = [&[], &["skipme"], &["other"], &["skipme", "other"]];
+    for what in ["macros", "attributes"] {
+        for mech in ["crate", "mod", "config"] {
+            if what == "attributes" && mech == "config" {
+                continue;
+            }
+            for outer in subsets {
+                for inner in subsets {
+                    if outer.is_empty() && inner.is_empty() {
+                        continue;
+                    }
+                    if mech == "config" && outer.is_empty() {
+                        continue;
+                    }
+                    for inner_kind in ["fn", "mod", "impl"] {
+                        let use_of = |name: &str, pos: &str| -> String {
+                            if what == "macros" {
+                                format!("{name} ! (  {pos} ,\n        b  ,  c )")
+                            } else {
+                                format!("#[{name}(  {pos} ,\n    y  =  \"z\" )]")
+                            }
+                        };
+                        // a function holding one use of each name (macros: two statements; attributes: two
+                        // attributed nested functions)
+                        let holder = |pos: &str| -> String {
+                            if what == "macros" {
+                                format!("fn {pos}() {{\n{};\n{};\n}}\n", use_of("skipme", pos), use_of("other", pos))
+                            } else {
+                                format!(
+                                    "{}\nfn {pos}_a() {{}}\n{}\nfn {pos}_b() {{}}\n",
+                                    use_of("skipme", pos),
+                                    use_of("other", pos)
+                                )
+                            }
+                        };
+                        let attr = |list: &[&str], inner_attr: bool| -> String {
+                            if list.is_empty() {
+                                String::new()
+                            } else {
+                                format!("#{}[rustfmt::skip::{what}({})]\n", if inner_attr { "!" } else { "" }, list.join(", "))
+                            }
+                        };
+                        let inner_item = match inner_kind {
+                            "fn" if what == "macros" => format!("{}{}", attr(inner, false), holder("inner")),
+                            "fn" => format!("{}fn wrap() {{\n{}}}\n", attr(inner, false), holder("inner")),
+                            "mod" => format!("{}mod im {{\n{}}}\n", attr(inner, false), holder("inner")),
+                            _ if what == "macros" => format!("{}impl T {{\n{}}}\n", attr(inner, false), holder("inner")),
+                            _ => format!("{}impl T {{\n{}\nfn inner_a() {{}}\n{}\nfn inner_b() {{}}\n}}\n", attr(inner, false), use_of("skipme", "inner"), use_of("other", "inner")),
+                        };
+                        let body = format!("{}{}{}", holder("before"), inner_item, holder("after"));
+                        let (prog, outer_everywhere) = match mech {
+                            "crate" => (format!("{}mod m {{\n{body}}}\n{}", attr(outer, true), holder("outside")), true),
+                            "mod" => (format!("{}mod m {{\n{body}}}\n{}", attr(outer, false), holder("outside")), false),
+                            _ => (format!("mod m {{\n{body}}}\n{}", holder("outside")), true),
+                        };
+                        let mut verb = vec![];
+                        let mut chg = vec![];
+                        for pos in ["before", "inner", "after", "outside"] {
+                            for name in names {
+                                let listed = (outer.contains(&name) && (outer_everywhere || pos != "outside"))
+                                    || (pos == "inner" && inner.contains(&name));
+                                if listed {
+                                    verb.push(use_of(name, pos));
+                                } else {
+                                    chg.push(use_of(name, pos));
+                                }
+                            }
+                        }
+                        let kv = if mech == "config" {
+                            vec![(
+                                "skip_macro_invocations".to_string(),
+                                format!("[{}]", outer.iter().map(|n| format!("\"{n}\"")).collect::<Vec<_>>().join(",")),
+                            )]
+                        } else {
+                            vec![]
+                        };
+                        v.push((
+                            format!("scopes-{what}/{mech}[{}]/{inner_kind}[{}]", outer.join("+"), inner.join("+")),
+                            prog,
+                            verb,
+                            chg,
+                            kv,
+                        ));
+                    }
+                }
+            }
+        }
+    }
     v
 }
 
